@@ -89,6 +89,8 @@ def show(t, depth=0):
 # ------------------------------------------------------------------ constructors
 
 def const(v, sort=None):
+    if hasattr(v, '_term'):          # a symbolic proxy (SInt subclasses int): never a constant
+        return v._term
     if isinstance(v, bool):
         return T('const', (v,), 'B')
     if isinstance(v, int):
@@ -292,6 +294,13 @@ def powt(a, e):
 
 def app(fname, *args, sort='R'):
     args = tuple(as_term(a) for a in args)
+    if fname == 'stopgrad':
+        a0 = args[0]
+        if a0.op == 'const' or (a0.op == 'app' and a0.args[0] == 'stopgrad'):
+            return a0
+        return T('app', ('stopgrad', a0), a0.sort)
+    if fname == 'exp' and len(args) == 1 and args[0].op == 'app' and args[0].args[0] == 'log' and args[0].args[1].op == 'app' and args[0].args[1].args[0] in ('npdf', 'exp'):
+        return args[0].args[1]          # exp(log(npdf(u))) = npdf(u): the argument is positive
     if fname in ('exp', 'log', 'sqrt', 'ncdf', 'npdf', 'cos', 'sin', 'cbrt') and len(args) == 1:
         a = toreal(args[0])
         if a.op == 'const':
